@@ -228,7 +228,7 @@ func runC14(c *Ctx) {
 	c.Rule("pipelines INIT, OPEN x h (h=1..4; read / write / read+write handles), then after the handles are known the interleaved sequences (READ|WRITE)^k CLOSE per handle (k<=32) " +
 		"as raw frames without waiting for replies; request server: all ReadAt/WriteAt calls are held at gates until the next unanswered CLOSE frame has been written, then released in seeded orders; " +
 		"os-backed server: 100-250 KB transfers; allocator off/on; kind openpipe additionally pipelines the OPENs with predicted handles (there a transfer that overtakes its OPEN and is refused is tolerated, the Close clauses are still checked). " +
-		"non-trivial = at least 2 transfers precede a CLOSE and (request server) at least 2 backend calls were blocked at once when gates were opened or (os) a transfer of 100000+ bytes")
+		"kind hangup (os server): the same pipelines, the client half-closes right after the last frame without waiting for replies: when Serve has returned every write must be in the file and no reply received may be a failure (missing replies are C02's known finding F10, not judged). non-trivial = at least 2 transfers precede a CLOSE and (request server) at least 2 backend calls were blocked at once when gates were opened or (os) a transfer of 100000+ bytes")
 	nProg, scheds := 300, 3
 	if c.Thorough() {
 		nProg, scheds = 1500, 5
@@ -373,6 +373,11 @@ func runC14(c *Ctx) {
 			}
 		}
 	}
+	nHang := 60
+	if c.Thorough() {
+		nHang = 400
+	}
+	c14Hangups(c, nHang)
 	c.Diag("c14 openpipe: %d READ/WRITE requests overtook the pipelined OPEN whose handle they guessed (answered STATUS 4; tolerated: no client can know a handle before the OPEN reply)", overtaken)
 	c.Diag("c14 scheduler: %d full gate rounds; %d gates had to be opened before the CLOSE frame could be written (pipeline full); %d runs fell back to the 50 ms idle rule", rounds, stalls, mispred)
 }
